@@ -160,6 +160,20 @@ func (ip *Inode) FreeInode(atxn *alloctxn.AllocTxn) {
 	atxn.FreeINum(ip.Inum)
 }
 
+// Zero the bytes from sz to the end of its block, so that the old
+// contents don't reappear when the file grows again.
+func (ip *Inode) zeroTail(atxn *alloctxn.AllocTxn, sz uint64) {
+	blkno, _ := ip.bmap(atxn, sz/disk.BlockSize)
+	if blkno == common.NULLBNUM {
+		return
+	}
+	buf := atxn.ReadBlock(blkno)
+	for b := sz % disk.BlockSize; b < disk.BlockSize; b++ {
+		buf.Data[b] = 0
+	}
+	buf.SetDirty()
+}
+
 // Resize updates the inode, but may not free immediately if the inode
 // shrinks. It creates a new thread to free blocks in a separate
 // transaction, if shrinking involves freeing many blocks.  ShrinkSize
@@ -169,6 +183,9 @@ func (ip *Inode) Resize(atxn *alloctxn.AllocTxn, sz uint64) bool {
 	var doshrink = false
 	oldsz := util.RoundUp(ip.Size, disk.BlockSize)
 	util.DPrintf(5, "Resize %v to sz %d\n", oldsz, newSz)
+	if sz < ip.Size && sz%disk.BlockSize != 0 {
+		ip.zeroTail(atxn, sz)
+	}
 	ip.Size = newSz
 	newSz = util.RoundUp(sz, disk.BlockSize)
 	if newSz < oldsz {
